@@ -60,23 +60,37 @@ def r11_2(ctx):
 
 
 def r11_3(ctx):
+    """stroke flattens with a tolerance that shrinks with the transform's scale: c / sqrt(|det(self.transform)|)
+    (through the scaled_tolerance helper, or written out in place)"""
+    import geomalg
     R = 'R11.3'
     b = ctx.body(DT + 'stroke', R)
     an = ctx.an(b)
     key = 'draw_target::DrawTarget::stroke'
     fl = [ct for bi, d, ct in calls_in(ctx, b) if d == 'raqote::path_builder::Path::flatten']
-    ok = len(fl) == 1
+    ok = len(fl) == 1 and strip_all(fl[0][2][0]) in (('param', 2), ('deref', ('param', 2)))
+    shown = ''
     if ok:
-        tol = fl[0][2][1]
-        ok = is_call(tol, 'draw_target::scaled_tolerance') and is_self_field(strip_all(tol[2][1]), 'transform') and const_val(tol[2][0]) is not None and strip_all(fl[0][2][0]) in (('param', 2), ('deref', ('param', 2)))
-    ctx.check(ok, R, key + '|tolerance', b.loc(), 'flatten(path, scaled_tolerance(c, &self.transform))', 'stroke does not flatten the path with scaled_tolerance(_, &self.transform)')
-    sb = ctx.body('raqote::draw_target::scaled_tolerance', R)
-    rts = shared.ret_terms(ctx, sb)
-    ok = len(rts) == 1 and rts[0][0] == 'bin' and rts[0][1] == 'Div' and rts[0][2] == ('param', 1)
-    if ok:
-        den = rts[0][3]
-        ok = is_call(den, 'sqrt') and is_call(den[2][0], 'abs') and is_call(den[2][0][2][0], 'determinant') and strip_all(den[2][0][2][0][2][0]) in (('param', 2), ('deref', ('param', 2)))
-    ctx.check(ok, R, 'draw_target::scaled_tolerance|form', sb.loc(), 'x / sqrt(|det(trans)|)', 'scaled_tolerance is not x / trans.determinant().abs().sqrt()')
+        tol = strip_all(fl[0][2][1])
+        for _ in range(3):      # see through single-expression local helpers
+            if tol[0] == 'call' and isinstance(tol[1], str) and tol[1].startswith('raqote::'):
+                hb = ctx.F.body(tol[1])
+                rts = shared.ret_terms(ctx, hb) if hb is not None else []
+                if len(rts) == 1:
+                    tol = strip_all(geomalg.tsubst(rts[0], {i2 + 1: a for i2, a in enumerate(tol[2])}))
+                    continue
+            break
+        shown = fmt(b, tol)
+        ok = tol[0] == 'bin' and tol[1] == 'Div' and const_val(tol[2]) is not None and const_val(tol[2]) > 0
+        if ok:
+            den = strip_all(tol[3])
+            ok = is_call(den, 'sqrt') and is_call(strip_all(den[2][0]), 'abs') and is_call(strip_all(strip_all(den[2][0])[2][0]), 'determinant')
+            if ok:
+                m = strip_all(strip_all(strip_all(den[2][0])[2][0])[2][0])
+                while m[0] in ('ref', 'deref') and not is_self_field(m, 'transform'):
+                    m = strip_all(m[1])
+                ok = is_self_field(m, 'transform')
+    ctx.check(ok, R, key + '|tolerance', b.loc(), 'flatten(path, c / sqrt(|det(self.transform)|))', 'stroke does not flatten the path with a tolerance of the form c / self.transform.determinant().abs().sqrt() (it is %s): the flattening error would not stay constant in device pixels under scaling transforms' % (shown or 'not a single flatten(path, ..) call'))
 
 
 def r11_5(ctx):
@@ -122,5 +136,13 @@ def r11_5(ctx):
     ctx.check(ok, R, 'draw_target::DrawTarget::mask|device-space rects', b.loc(), 'mask rectangles do not depend on self', 'the rectangles mask() passes to composite depend on the DrawTarget state (transform)')
 
 
+def _r04_5(ctx):
+    import sd
+    sd.r04_5(ctx)
+
+
+_r04_5.__name__ = 'r04_5'
+
+
 def run(ctx):
-    engine.run_rules(ctx, [ras.r08_1, r11_2, r11_3, dt.r06_5, r11_5, c13.r13_1, c13.r13_5, c12.r12_1, c12.r12_3, c20.r20_3, lambda c: c15.r15_3(c, c.body(c15.CS, 'R15.3'))])
+    engine.run_rules(ctx, [ras.r08_1, r11_2, r11_3, _r04_5, dt.r06_5, r11_5, c13.r13_1, c13.r13_5, c12.r12_1, c12.r12_2, c12.r12_3, c20.r20_3, lambda c: c15.r15_3(c, c.body(c15.CS, 'R15.3'))])
